@@ -39,8 +39,12 @@ from ..cfront import REPO, AnalysisError
 LEVEL = "translation_validation"
 
 INTROSPECT = "python/mujoco/introspect"
-FLOOR_STRUCTS, FLOOR_ENUMS, FLOOR_FUNCS = 66, 77, 537
-FLOOR_COVER = 66 + 77 + 537
+# Confirmed on the pinned tree: 66 structs, 77 enums, 537 functions compared, 686 public declarations covered
+# (71 struct typedefs incl. 5 excluded, 77 enum typedefs, 538 functions incl. 1 excluded).  The floors sit ~10% below:
+# because both directions are checked, a declaration lost on ONE side is a VIOLATION of the opposite rule (and must be
+# reported as such, not masked by a floor); the floors only catch a front end that lost most of BOTH sides.
+FLOOR_STRUCTS, FLOOR_ENUMS, FLOOR_FUNCS = 60, 70, 500
+FLOOR_COVER = 640
 
 
 # --------------------------------------------------------------------------------------
